@@ -184,6 +184,19 @@ impl Database {
                 crate::sql::ast::Literal::Null => None,
                 _ => None,
             },
+            // signed numeric literal: `DEFAULT -2` parses as a unary minus over a literal
+            Expr::UnaryOp {
+                op: crate::sql::ast::UnaryOperator::Minus,
+                expr: inner,
+            } => match inner {
+                Expr::Literal(crate::sql::ast::Literal::Integer(n)) => Some(format!("-{}", n)),
+                Expr::Literal(crate::sql::ast::Literal::Float(f)) => Some(format!("-{}", f)),
+                _ => None,
+            },
+            Expr::UnaryOp {
+                op: crate::sql::ast::UnaryOperator::Plus,
+                expr: inner,
+            } => Self::expr_to_default_string(inner),
             Expr::Function(func) => {
                 let name = func.name.name.to_uppercase();
                 match name.as_str() {
